@@ -95,8 +95,10 @@ class Layout:
         rng = self.rng
         out = []
         skip_after_streaminf = False
-        for ln in lines:
-            if not skip_after_streaminf:
+        for li, ln in enumerate(lines):
+            if li == 0:
+                pass        # "#EXTM3U" must be the first line of the file
+            elif not skip_after_streaminf:
                 if self.comments and rng.random() < 0.2:
                     out.append(rng.choice(["# comment", "#", "## x", "#ext-lower"]))
                 if self.blank_lines and rng.random() < 0.2:
